@@ -153,6 +153,54 @@ def run(ctx: Ctx):
         tzp.use_default()
     ctx.notes.append(f"fixture rewrites parsed: {nfix}")
 
+    # ------------------------------------------------------------- a calendar that defines and uses its own time zone
+    # (each rendering gets a fresh TZID: the VTIMEZONE cache of the process must not hide what a rendering does)
+    def tzcal(tzid):
+        return "\r\n".join(["BEGIN:VCALENDAR", "VERSION:2.0", "PRODID:-//verif//tz//EN", "BEGIN:VTIMEZONE", f"TZID:{tzid}", "BEGIN:STANDARD",
+                            "DTSTART:19701025T030000", "RRULE:FREQ=YEARLY;BYDAY=-1SU;BYMONTH=10", "TZOFFSETFROM:+0630", "TZOFFSETTO:+0530", "TZNAME:VST",
+                            "END:STANDARD", "BEGIN:DAYLIGHT", "DTSTART:19700329T020000", "RRULE:FREQ=YEARLY;BYDAY=-1SU;BYMONTH=3", "TZOFFSETFROM:+0530",
+                            "TZOFFSETTO:+0630", "TZNAME:VDT", "END:DAYLIGHT", "END:VTIMEZONE", "BEGIN:VEVENT", "UID:tz-1", f"DTSTART;TZID={tzid}:20240115T100000",
+                            f"DTEND;TZID={tzid}:20240715T100000", f"RDATE;TZID={tzid}:20240116T100000,20240716T100000", "END:VEVENT", "END:VCALENDAR"]) + "\r\n"
+
+    def tz_facts(comp):
+        out = []
+        for ev_ in comp.walk("VEVENT"):
+            for k in ("DTSTART", "DTEND"):
+                d = ev_[k].dt
+                out.append([k, d.replace(tzinfo=None).isoformat(), None if d.utcoffset() is None else int(d.utcoffset().total_seconds())])
+            out.append(["RDATE", [[x.dt.replace(tzinfo=None).isoformat(), None if x.dt.utcoffset() is None else int(x.dt.utcoffset().total_seconds())]
+                                  for x in ev_["RDATE"].dts]])
+        return out
+    want = [["DTSTART", "2024-01-15T10:00:00", 19800], ["DTEND", "2024-07-15T10:00:00", 23400],
+            ["RDATE", [["2024-01-16T10:00:00", 19800], ["2024-07-16T10:00:00", 23400]]]]
+    n_tz = 0
+    try:
+        for prov in ("zoneinfo", "pytz"):
+            tzp.use(prov)
+            for fold_mode in (0, 1, 3):
+                for case_mode in (0, 1, 2):
+                    for eol in ("crlf", "lf"):
+                        n_tz += 1
+                        tzid = f"Verif/Own-{prov}-{n_tz}"
+                        how = {"eol": eol, "bom": False, "str": n_tz % 2 == 0, "fold": fold_mode, "case": case_mode, "trail": 0}
+                        data = rewrite_text(tzcal(tzid), how, rnd)
+                        if data is None:
+                            continue
+                        ctx.case(("own-tz", prov, repr(how)), True)
+                        got = pc.real_parse(data, True)
+                        case = {"own_timezone": True, "how": how, "provider": prov}
+                        if got[0] != "ok" or len(got[1]) != 1:
+                            ctx.fail("P:C09:rewrite-accepted", case, str(got[1])[:200], None)
+                            continue
+                        try:
+                            facts = tz_facts(got[1][0])
+                        except Exception as e:   # noqa: BLE001
+                            facts = type(e).__name__
+                        if facts != want:
+                            ctx.fail("P:C09:same-tree", case, facts, want)
+    finally:
+        tzp.use_default()
+
     # ------------------------------------------------------------- scale: the same invariance on texts of 5 KiB .. 600 KiB
     # (block-wise readers, buffer limits: a fold or a line break may sit on any boundary)
     def big(n_events, pad):
